@@ -286,7 +286,7 @@ func cmdCheck(args []string) {
 	for i, k := range order {
 		g := groups[k]
 		name := fmt.Sprintf("vio%d", i)
-		rc := ReplayCase{Name: name, Fn: g.first.Harness, Vals: modelToVals(g.first.Model), Params: g.params, Repeat: 1, WantID: g.first.ID, Timeout: g.spec.ReplayTO}
+		rc := ReplayCase{Name: name, Fn: g.first.Harness, Vals: modelToVals(g.first.Model), Strs: strModelToVals(g.first.StrModel), Params: g.params, Repeat: 1, WantID: g.first.ID, Timeout: g.spec.ReplayTO}
 		if len(g.first.Choices) > 0 && g.spec.Repeat > 0 {
 			rc.Repeat = g.spec.Repeat
 		}
@@ -304,7 +304,7 @@ func cmdCheck(args []string) {
 			}
 			name := fmt.Sprintf("wit%d", nw)
 			nw++
-			rc := ReplayCase{Name: name, Fn: rep.spec.Fn, Vals: modelToVals(w.Model), Params: rep.params, Repeat: 1, WantID: "\x00none", Timeout: rep.spec.ReplayTO}
+			rc := ReplayCase{Name: name, Fn: rep.spec.Fn, Vals: modelToVals(w.Model), Strs: strModelToVals(w.StrModel), Params: rep.params, Repeat: 1, WantID: "\x00none", Timeout: rep.spec.ReplayTO}
 			cases[pkgOf(rep.spec.Fn)] = append(cases[pkgOf(rep.spec.Fn)], rc)
 			witCases[name] = witCase{rep, w}
 		}
@@ -426,6 +426,10 @@ func cmdCheck(args []string) {
 				}
 				mj, _ := json.Marshal(modelToVals(g.first.Model))
 				fmt.Printf("  input=%s params=%s\n", truncate(string(mj), 1500), paramString(g.params))
+				if len(g.first.StrModel) > 0 {
+					sj, _ := json.Marshal(strModelToVals(g.first.StrModel))
+					fmt.Printf("  strings=%s\n", truncate(string(sj), 1500))
+				}
 				if g.dir != "" {
 					writeReplayReadme(g.dir, *prop, key, g, *repo, harnessDir)
 				}
@@ -600,7 +604,7 @@ func buildEvidence(prop, tier string, seed int64, spec PropSpec, reports []*runR
 			if i >= 2 || len(samples) >= 12 {
 				break
 			}
-			samples = append(samples, map[string]interface{}{"harness": rep.spec.Fn, "params": paramString(rep.params), "inputs": modelToVals(w.Model), "observed": w.Observed, "reached": w.Reached})
+			samples = append(samples, map[string]interface{}{"harness": rep.spec.Fn, "params": paramString(rep.params), "inputs": modelToVals(w.Model), "string_inputs": strModelToVals(w.StrModel), "observed": w.Observed, "reached": w.Reached})
 		}
 		runs = append(runs, map[string]interface{}{"harness": rep.spec.Fn, "obligation": rep.spec.Obligation, "params": paramString(rep.params), "paths": s.Paths, "ends": s.Ends,
 			"asserts": s.Asserts, "discharged": s.Discharged, "violating_paths": len(s.Violations), "max_decision_depth": s.MaxDepth, "steps": s.Steps,
